@@ -1,6 +1,7 @@
 package props
 
 import (
+	"math"
 	"fmt"
 	"strings"
 	"testing"
@@ -235,6 +236,9 @@ func c13Values() []namedVal {
 		{"tstr-plain", rc.Text("abc")}, {"tstr-type/subtype", rc.Text("text/plain")}, {"tstr-padded", rc.Text(" a/b")},
 		{"tstr-padded-tail", rc.Text("a/b ")}, {"tstr-tab-padded", rc.Text("\ta/b")}, {"tstr-newline-tail", rc.Text("a/b\n")}, {"tstr-crlf-tail", rc.Text("a/b; c=d\r\n")},
 		{"tstr-inner-whitespace", rc.Text("a/b;\tc=d")},
+		{"tstr-slash-only", rc.Text("/")}, {"tstr-empty-subtype", rc.Text("a/")}, {"tstr-empty-type", rc.Text("/b")}, {"tstr-empty-type-param", rc.Text("/;x")},
+		{"tstr-empty-subtype-param", rc.Text("a/ ;x=1")}, {"tstr-param-only-slash", rc.Text(";q=a/b")}, {"tstr-slash-in-param-only", rc.Text("a;b/c")},
+		{"tstr-semicolon-first", rc.Text(";a/b")},
 		{"tstr-two-slashes", rc.Text("a/b/c")}, {"tstr-empty", rc.Text("")}, {"tstr-with-param", rc.Text("a/b; c=d")},
 		{"bstr", rc.Bytes([]byte{1, 2})}, {"bstr-empty", rc.Bytes(nil)}, {"bstr-nil-slice", rc.Val{K: rc.KBytes, B: rc.Hex{}, Nil: true}},
 		{"array-empty", rc.Array()}, {"array-self", rc.Val{K: rc.KRaw}}, // array-self is replaced by [label] per cell
@@ -252,7 +256,17 @@ func c13Values() []namedVal {
 
 var c13Labels = []rc.Val{rc.Int(1), rc.Int(2), rc.Int(3), rc.Int(4), rc.Int(5), rc.Int(6), rc.Int(7), rc.Int(9), rc.Int(11), rc.Int(12), rc.Int(15),
 	rc.Int(16), rc.Int(32), rc.Int(33), rc.Int(34), rc.Int(35), rc.Int(258), rc.Int(259), rc.Int(260), rc.Int(99), rc.Int(-99), rc.Int(8), rc.Int(10), rc.Text("x"), rc.Text(""),
-	rc.Uint(1 << 63), rc.Uint(1<<64 - 1), rc.Uint(1<<64 - 2)} // the last three: beyond int64 (README: refused), reachable only as Go uint64 / uint
+	rc.Uint(1 << 63), rc.Uint(1<<64 - 1), rc.Uint(1<<64 - 2), // these three: beyond int64 (README: refused), reachable only as Go uint64 / uint
+	// unknown labels at the edges of the CBOR head widths and of the Go integer types (a reduced set of value kinds, c13EdgeValues)
+	rc.Int(23), rc.Int(24), rc.Int(255), rc.Int(256), rc.Int(65535), rc.Int(65536), rc.Int(1<<31 - 1), rc.Int(1 << 31), rc.Int(1<<32 - 1), rc.Int(1 << 32), rc.Int(1 << 53),
+	rc.Int(math.MaxInt64), rc.Int(math.MinInt64), rc.Int(-24), rc.Int(-25), rc.Int(-128), rc.Int(-129), rc.Int(-256), rc.Int(-257), rc.Int(-32769), rc.Int(-65536), rc.Int(-65537), rc.Int(-1 << 31), rc.Int(-1<<31 - 1), rc.Int(-1<<32 - 1)}
+
+var c13EdgeValues = map[string]bool{"uint": true, "tstr-plain": true, "bstr": true, "array-self": true, "map": true, "csig": true, "null": true}
+
+func c13EdgeLabel(l rc.Val) bool {
+	i, ok := l.Int64()
+	return l.K == rc.KInt && ok && (i >= 23 && i != 32 && i != 33 && i != 34 && i != 35 && i != 99 && i != 258 && i != 259 && i != 260 || i <= -24 && i != -99)
+}
 
 var c13Ctxs = []string{"protected", "unprotected", "sign1", "untagged", "signature", "countersignature", "sign-body"}
 
@@ -268,6 +282,9 @@ func forEachSingleParamCell(spellings bool, run func(c c13Case), extra ...namedV
 			for _, l := range c13Labels {
 				for _, nv := range append(c13Values(), extra...) {
 					v := nv.v
+					if c13EdgeLabel(l) && !c13EdgeValues[nv.name] {
+						continue
+					}
 					if nv.name == "array-self" {
 						v = rc.Array(l)
 					}
